@@ -250,9 +250,11 @@ impl<'a> expr::Visitor<'a, ast::Expr> for FromExprVisitor {
                     duplicate_treatment: None,
                     args: arguments
                         .into_iter()
-                        .filter_map(|e| {
-                            (e != ast::Expr::Value(ast::Value::Number("0".to_string(), false)))
-                                .then_some(ast::FunctionArg::Unnamed(ast::FunctionArgExpr::Expr(e)))
+                        .enumerate()
+                        .filter_map(|(i, e)| {
+                            (i == 0
+                                || e != ast::Expr::Value(ast::Value::Number("0".to_string(), false)))
+                            .then_some(ast::FunctionArg::Unnamed(ast::FunctionArgExpr::Expr(e)))
                         })
                         .collect(),
                     clauses: vec![],
